@@ -205,7 +205,26 @@ def no_alias(U, rep, tier, rule='R10.4', key='%s: world contact (-1) does not al
               construct='result for link 0 independent of link 1; link 1 untouched')
 
 
+def world_matrix_law(U, rep):
+  """R10.8 [AVN exact, law]: "links at any world pose": the world matrix of a geom is quat_to_3x3 of the composed
+  quaternion, and it IS the rotation -- quat_to_3x3(q) v |q|^2 = rotate(v, q) -- for a generic quaternion and for the exact
+  half turns w = 0 (a legal unit orientation: a guard that tests w instead of |q|^2 turns them into the identity)."""
+  f = U.func(MA + '.quat_to_3x3')
+  v = symarr('v', (3,))
+  for name, q in (('generic q', symarr('aq', (4,))), ('half turn: w = 0 exactly', np.array([Rat.lift(0)] + list(symarr('hq', (3,))), dtype=object)),
+                  ('half turn about one axis: q = (0, 0, y, 0)', np.array([Rat.lift(0), Rat.lift(0), sym('hy'), Rat.lift(0)], dtype=object))):
+    I = new_interp(U.repo)
+    I.generic_branches = True
+    Rm = I.apply(fn(MA, 'quat_to_3x3'), [q], {})
+    lhs = np.dot(asarr(Rm), v) * np.dot(q, q)
+    rhs = I.apply(fn(MA, 'rotate'), [v, q], {})
+    rep.check(same(lhs, rhs), 'R10.8', 'quat_to_3x3(q) v |q|^2 == rotate(v, q) [%s]' % name,
+              lambda: 'the world matrix of a geom is not the rotation of its quaternion: ' + diff_report(lhs, rhs), where=f.where(),
+              construct='contact.get: geom_mat = quat_to_3x3(link rot * geom quat)')
+
+
 def run(U, rep, tier):
+  world_matrix_law(U, rep)
   local_to_global(U, rep)
   get_dataflow(U, rep)
   no_alias(U, rep, tier)
